@@ -47,13 +47,17 @@ Section Connect.
 
   (* HttpProxyPlugin.connect_upstream with no plugin overriding resolve_dns (upstream_ip = source_addr = None),
      connection pool off.  `if host and port` is Python truthiness: None, b'' and 0 are false.
+     `if not 0 < port <= 65535: raise HttpProtocolException('Invalid port')` (fix: C14-port-range; the resolver
+     behind socket.create_connection reduces larger numbers modulo 65536).
      text_(host) raises UnicodeDecodeError inside the try AND again inside the except handler, so it escapes. *)
   Definition connect_upstream (host : option bytes) (port : option Z) : result sockcall :=
     match host, port with
     | Some h, Some p =>
         if negb (Nat.eqb (length h) 0) && negb (p =? 0)%Z then
-          do t <- text_ h;
-          Ok (tcp_server_connect (t, p) None)
+          if (0 <? p)%Z && (p <=? 65535)%Z then
+            do t <- text_ h;
+            Ok (tcp_server_connect (t, p) None)
+          else Err (HttpProtocolException 4)        (* 'Invalid port' *)
         else Err (HttpProtocolException 3)          (* 'Both host and port must exist' *)
     | _, _ => Err (HttpProtocolException 3)
     end.
